@@ -49,7 +49,7 @@ def evP : P Ev := do
 def flagsOf (b : Nat) : Flags :=
   { leak := b.testBit 0, replace := b.testBit 1, numpyAreas := b.testBit 2, jacWrite := b.testBit 3,
     treeKey := b.testBit 4, lineKey := b.testBit 5, rawNodeLon := b.testBit 6,
-    staleCount := b.testBit 7 }
+    staleCount := b.testBit 7, incompleteEdges := b.testBit 8 }
 
 def presentOf (g : Grid) : List Nat :=
   (Var.all.filter (fun v => (g.st v).isSome)).map Var.code
